@@ -1501,7 +1501,7 @@ class Generator:
                 on = []
                 seen_pairs = set()
                 cxm = X.MCtx(m.model, l.m, m.ref_toks, m.expr_recs, right=r.m)
-                for p in (mk_eq(), mk_eq(), mk_eqx()):
+                for p in rng.choice([(mk_eq(), mk_eq(), mk_eqx()), (mk_eq(), mk_eqx(), mk_eqx()), (mk_eqx(), mk_eqx())]):
                     # the same equality twice is not generated (polars refuses repeated join keys)
                     if p:
                         key = frozenset((cxm.resolve(p["a"]), cxm.resolve(p["b"])))
